@@ -65,6 +65,15 @@ func c01Cells(tier string) []Cell {
 						cells = append(cells, Cell{ID: k.ID()})
 					}
 
+					// The caller of the Get that owns the build gives up (cancels its context) while its build is running:
+					// the build is still in flight until the builder returns, whoever waits for it.
+					if sc == "o" || sc == "f" {
+						k := c
+						k.Callout = false
+						k.Threads = [][]GOp{{{Key: 0, CDur: true}, {Key: 0}}, {{Key: 0}}}
+						cells = append(cells, Cell{ID: k.ID()})
+					}
+
 					// The bench/failover.go usage pattern: one key buffer reused for the next Get while the
 					// background build of the previous key may still be running, next to a plain Get of the second key.
 					if sc == "o" || sc == "f" {
